@@ -35,6 +35,9 @@ Definition mism_access := Eval vm_compute in failing corr_ok cases_access.
 Print mism_access.
 Definition mism_csrf_old_token := Eval vm_compute in failing corr_ok cases_csrf_old_token.
 Print mism_csrf_old_token.
+(* request histories: each request against the verdict for that request alone at its own time *)
+Definition mism_token_history := Eval vm_compute in failing corr_ok cases_token_history.
+Print mism_token_history.
 (* the patterns registered in the running mux are exactly the paths of the table
    (index i: a registered pattern missing from the table; 1000+i: a table path not registered) *)
 Definition table_paths := map r_path routes.
